@@ -320,7 +320,7 @@ class Builder:
         meta = {"cc_name": cc_name, "sessions": n_sessions, "decrypt": dec, "encrypt": enc}
         return toks, meta
 
-    def response(self, cc_name, n_sessions, enc=False, failed=False, path=""):
+    def response(self, cc_name, n_sessions, enc=False, failed=False, path="", fail_code=None):
         L, ch = self.L, self.ch
         entry = L.commands[cc_name]
         fr = {n: t for n, t in L.framing["Response"]["fields"]}
@@ -337,6 +337,8 @@ class Builder:
             if ch.chance(1, 10):
                 # non-zero, but the twelve low bits are clear (only reserved bits set): still a failure - nothing follows the header
                 code = ch.choice([0x00001000, 0x00010000, 0x40000000, 0xABCDE000, 0xFFFFF000])
+            if fail_code is not None:
+                code = fail_code
             toks = head + [[f"{path}.responseCode", fr["responseCode"], code]]
             toks[2][2] = self._nbytes(toks)
             return toks, {"cc_name": cc_name, "sessions": n_sessions, "failed": True, "encrypt": False}
@@ -433,6 +435,7 @@ def streams(draw, layout, max_pairs=4, lone_tail=True, big=False, rare=True):
     enc_names = [c for c in names if layout.first_param_is_tpm2b(layout.commands[c]["response_params"])]
     if carry:
         b.flags.add("stream_enc_then_plain")
+    bare = [c for c in names if not layout.structs[layout.commands[c]["command_handles"]]["fields"] and not layout.structs[layout.commands[c]["command_params"]]["fields"]]
     for i in range(n):
         if carry:
             cc_name = ch.choice(enc_names)
@@ -440,6 +443,8 @@ def streams(draw, layout, max_pairs=4, lone_tail=True, big=False, rare=True):
             ctoks, cmeta = b.command(cc_name, ns, want_encrypt=True if i == 0 else None)
         else:
             cc_name = ch.choice(names)
+            if bare and ch.chance(1, 12):
+                cc_name = ch.choice(bare)
             ns = _n_sessions(ch, "any")
             ctoks, cmeta = b.command(cc_name, ns)
         first = len(toks)
@@ -448,8 +453,17 @@ def streams(draw, layout, max_pairs=4, lone_tail=True, big=False, rare=True):
         if lone_tail and i == n - 1 and ch.chance(1, 6):
             break
         failed = ch.chance(1, 5) if not carry else (i == 0 and ch.chance(1, 3))
-        # a successful response mirrors the command's sessions; a failed one is header-only
-        rtoks, rmeta = b.response(cc_name, ns if not failed else ch.choice([None, ns]), enc=cmeta["encrypt"], failed=failed)
+        twin = ns is None and not carry and sum(1 for t in ctoks if t[2] != ELLIPSIS) == 3 and ch.bool()
+        if twin:
+            # a header-only command (GetTestResult, ReadClock) answered by a failure whose response code is the command
+            # code: two consecutive messages with the very same bytes (nothing may take the second for a repetition)
+            rtoks, rmeta = b.response(cc_name, None, failed=True, fail_code=layout.commands[cc_name]["code"])
+            rtoks[1][2] = NO_SESSIONS
+            failed = True
+            b.flags.add("identical_consecutive_messages")
+        else:
+            # a successful response mirrors the command's sessions; a failed one is header-only
+            rtoks, rmeta = b.response(cc_name, ns if not failed else ch.choice([None, ns]), enc=cmeta["encrypt"], failed=failed)
         if cmeta["encrypt"] and not failed and not rmeta["encrypt"]:
             # cannot honour the request (no sessions in the response): regenerate the expectation instead
             raise AssertionError("builder: encrypt requested but response cannot mirror it")
